@@ -496,6 +496,10 @@ _ONCE_VARIANTS = [
  dict(name='benign-generic-signblob-two-helpers-deep', expect='silent', edits=[
       (S, _G_EVAL, _G_EVAL.replace('getDescriptor(ks, genDesc)', 'describeBlob(genDesc, ks)')),
       (S, _GETDESC, 'func describeBlob(gen notation.BlobDescriptorGenerator, ks signature.KeySpec) (ocispec.Descriptor, error) {\n\tdesc, err := getDescriptor(ks, gen)\n\tif err != nil {\n\t\treturn ocispec.Descriptor{}, err\n\t}\n\treturn desc, nil\n}\n\n' + _GETDESC)]),
+ dict(name='benign-wrapper-loop-one-generator-per-blob', file=N, expect='silent', find='func validateSignArguments(',
+      replace='func signBlobs(ctx context.Context, signer BlobSigner, blobReaders []io.Reader, signBlobOpts SignBlobOptions) error {\n\tfor _, blobReader := range blobReaders {\n\t\tgetDescFunc := getDescriptorFunc(ctx, blobReader, signBlobOpts.ContentMediaType, signBlobOpts.UserMetadata)\n\t\tif _, _, err := signer.SignBlob(ctx, getDescFunc, signBlobOpts.SignerSignOptions); err != nil {\n\t\t\treturn err\n\t\t}\n\t}\n\treturn nil\n}\n\nfunc validateSignArguments('),
+ dict(name='wrapper-loop-one-generator-for-all-signers', file=N, expect='flagged(blob-descriptor/generator-called-once)', find='func validateSignArguments(',
+      replace='func signBlobWithAll(ctx context.Context, signers []BlobSigner, blobReader io.Reader, signBlobOpts SignBlobOptions) error {\n\tgetDescFunc := getDescriptorFunc(ctx, blobReader, signBlobOpts.ContentMediaType, signBlobOpts.UserMetadata)\n\tfor _, signer := range signers {\n\t\tif _, _, err := signer.SignBlob(ctx, getDescFunc, signBlobOpts.SignerSignOptions); err != nil {\n\t\t\treturn err\n\t\t}\n\t}\n\treturn nil\n}\n\nfunc validateSignArguments('),
  dict(name='benign-generic-signblob-evaluates-in-either-branch', file=S, expect='silent', find=_G_EVAL,
       replace='\tvar desc ocispec.Descriptor\n\tif opts.SignatureMediaType == "" {\n\t\tdesc, err = getDescriptor(ks, genDesc)\n\t\tlogger.Debug("No signature media type requested")\n\t} else {\n\t\tdesc, err = getDescriptor(ks, genDesc)\n\t}\n\tif err != nil {\n\t\treturn nil, nil, err\n\t}\n\treturn s.Sign(ctx, desc, opts)\n'),
  dict(name='benign-generic-signblob-object-holding-generator-described-once', expect='silent', edits=[
